@@ -90,13 +90,17 @@ Record kern_ok : Prop := {
   (* Kronecker products: factorizations of the factors combine into one of the product *)
   ko_eig_kron : forall A ms vecs es, kron A ms -> Forall2 (valid (AEig vecs)) ms es -> valid (AEig vecs) A (k_eig_kron K A vecs es);
   ko_svd_kron : forall A ms us, kron A ms -> Forall2 (valid ASvd) ms us -> valid ASvd A (k_svd_kron K A us);
-  ko_chol_kron : forall A ms up cs, kron A ms -> Forall2 (valid (AChol up)) ms cs -> valid (AChol up) A (k_chol_kron K A cs up);
+  ko_chol_kron : forall A ms up inst cs, kron A ms -> Forall2 (valid (AChol up)) ms cs -> valid (AChol up) A (k_chol_kron K A cs up inst);
   ko_root_kron : forall A ms rs, kron A ms -> Forall2 (valid ARoot) ms rs -> valid ARoot A (k_root_kron K A rs);
   ko_rootinv_kron : forall A ms rs, kron A ms -> Forall2 (valid ARootInv) ms rs -> valid ARootInv A (k_rootinv_kron K A rs);
   ko_iqld_kron : forall A rhs ld iq e,
       match rhs, iq with Some _, Some x => valid (AIqld rhs false) A x | None, None => True | _, _ => False end ->
       match ld, e with true, Some e' => valid (AEig true) A e' | false, None => True | _, _ => False end ->
-      valid (AIqld rhs ld) A (k_iqld_kron K A iq e)
+      valid (AIqld rhs ld) A (k_iqld_kron K A iq e);
+  (* delegating classes (BlockDiag, BatchRepeat): kron A [C] reads "A is built from the one base operator C" *)
+  ko_deleg_lift : forall A C x, kron A [C] -> valid AInvFactor C x -> valid AInvFactor A (k_deleg_lift K A x);
+  ko_iqld_deleg : forall A C rhs ld r, kron A [C] -> valid (AIqld rhs ld) C r -> valid (AIqld rhs ld) A (k_iqld_deleg K A r);
+  ko_sample_deleg : forall A C z v, kron A [C] -> valid (ASample z) C v -> valid (ASample z) A (k_sample_deleg K A v)
 }.
 
 Hypothesis KO : kern_ok.
@@ -573,6 +577,20 @@ Proof.
     constructor; [rewrite <- Em; exact Hx | exact Hxs].
 Qed.
 
+Lemma kron_over_some p l : kron_over p = Some l -> pf_eig p = EigKron l.
+Proof. unfold kron_over. destruct (pf_deleg p); [discriminate|]. destruct (pf_eig p); try discriminate. intros E. inversion E. reflexivity. Qed.
+
+(* the base operator of a delegating class exists and the object's matrix is built from its matrix *)
+Lemma deleg_wf h o c : obj_wf h o -> deleg_kid (o_pf K o) = Some c ->
+  exists oc, get c h = Some oc /\ kron (o_mat K o) [o_mat K oc].
+Proof.
+  intros (_ & _ & _ & _ & _ & W6) Ed. unfold deleg_kid in Ed.
+  destruct (pf_deleg (o_pf K o)); [|discriminate].
+  destruct (pf_eig (o_pf K o)) as [| |[|c' [|]]] eqn:Ee; try discriminate. inversion Ed; subst c'.
+  destruct (W6 [c] eq_refl) as (ms & F & Kr).
+  inversion F as [|? m ? ms' (oc & Gc & Em) F']; subst. inversion F'; subst. exists oc. split; [exact Gc | exact Kr].
+Qed.
+
 (* ------------------------------------------------------------------ _symeig, _svd *)
 Lemma symeig_none fuel i vecs h : get i h = None -> symeig K fuel i vecs h = (Raise ValueError, h).
 Proof. destruct fuel; simpl; apply with_obj_none. Qed.
@@ -684,7 +702,8 @@ Lemma _cholesky_eq fuel i args kw :
           match fuel with
           | O => raise ValueError
           | S f => cs <- mapM K (fun c => cholesky_of K (_cholesky K f c) [] [("upper", nth 0 p PNone)]) l ;;
-                   ret (k_chol_kron K (o_mat K o) cs (truthy (nth 0 p PNone)))
+                   ret (k_chol_kron K (o_mat K o) cs (truthy (nth 0 p PNone))
+                                    (match pf_deleg (o_pf K o) with Some _ => true | None => false end))
           end
       | _ => lift (k_chol K (o_mat K o) (truthy (nth 0 p PNone)))
       end) args kw).
@@ -836,7 +855,7 @@ Proof.
   intros G. unfold diagonalization.
   apply (sound_with_obj_wf h0 i o _ _ G); intros h1 o' E1 I1 G1 St _.
   rewrite (mat_eq _ _ St). cbv zeta.
-  destruct (pf_eig (o_pf K o')) as [|c|l]; try apply (sound_diagonalization_base st fuel h1 i o' _ _ G1).
+  destruct (kron_over (o_pf K o')) as [l|]; [|apply (sound_diagonalization_base st fuel h1 i o' _ _ G1)].
   sstep; [apply sound_lift with (Q := fun _ => True); auto|]. intros p _.
   apply (sound_diagonalization_base st fuel h1 i o' _ _ G1).
 Qed.
@@ -864,8 +883,8 @@ Lemma root_decomposition_eq st fuel i args kw :
           else if String.eqb m "lanczos" then r <- fresh_run K ;; ret (k_root_lanczos K (o_mat K o) r)
           else raise RuntimeError
       end in
-    match pf_eig (o_pf K o) with
-    | EigKron l =>
+    match kron_over (o_pf K o) with
+    | Some l =>
         cached_m K i "root_decomposition" (Some "root_decomposition") false (fun a k =>
           p <- lift (bind_params ["method"] a k) ;;
           if o_n K o <=? st_max_chol st
@@ -875,7 +894,7 @@ Lemma root_decomposition_eq st fuel i args kw :
                | S f => rs <- mapM K (fun c => root_decomposition K st f c [] [("method", nth 0 p PNone)]) l ;;
                         ret (k_root_kron K (o_mat K o) rs)
                end) args kw
-    | _ =>
+    | None =>
     match pf_cm_root (o_pf K o), fuel with
     | Some c, S f =>
         cached_m K i "root_decomposition" (Some "root_decomposition") false (fun a k =>
@@ -971,9 +990,8 @@ Proof.
                                | intros v Hv; apply (entry1_intro _ _ _ _ (aspects_root a k)); exact Hv])));
     idtac.
   - (* no fuel for children *)
-    destruct (pf_eig (o_pf K o')) as [|cs|l] eqn:Ee.
-    + destruct (pf_cm_root (o_pf K o')) as [c|] eqn:Ecm; [sstep | apply CB].
-    + destruct (pf_cm_root (o_pf K o')) as [c|] eqn:Ecm; [sstep | apply CB].
+    destruct (kron_over (o_pf K o')) as [l|] eqn:Ek.
+    2:{ destruct (pf_cm_root (o_pf K o')) as [c|] eqn:Ecm; [sstep | apply CB]. }
     + eapply sound_weaken; [apply (sound_cached h1 i o' "root_decomposition" (Some "root_decomposition") false _ args kw G1)
                            | unfold key_of; simpl name_of_opt; intros v Hv; apply (entry1_elim _ _ _ _ (aspects_root args kw)); exact Hv].
       unfold key_of. simpl name_of_opt.
@@ -993,11 +1011,10 @@ Proof.
       eapply sound_weaken; [|intros v Hv; apply (entry1_intro _ _ _ _ (aspects_root args kw)); exact Hv].
       sstep; [apply sound_lift with (Q := fun _ => True); auto|]. intros p _.
       sstep; [apply (IH h1 c oc _ _ Gc)|]. intros r Hr. sstep. eapply (ko_root_scale KO); eauto. }
-    destruct (pf_eig (o_pf K o')) as [|cs|l] eqn:Ee.
-    + destruct (pf_cm_root (o_pf K o')) as [c|] eqn:Ecm; [apply (CM c eq_refl) | apply CB].
-    + destruct (pf_cm_root (o_pf K o')) as [c|] eqn:Ecm; [apply (CM c eq_refl) | apply CB].
+    destruct (kron_over (o_pf K o')) as [l|] eqn:Ek.
+    2:{ destruct (pf_cm_root (o_pf K o')) as [c|] eqn:Ecm; [apply (CM c eq_refl) | apply CB]. }
     + (* Kron: small -> the base method (a second cache entry); else the product of the factors' roots *)
-      destruct W as (_ & _ & _ & _ & _ & W6). destruct (W6 l ltac:(first [exact Ee | reflexivity])) as (ms & F & Kr).
+      destruct W as (_ & _ & _ & _ & _ & W6). destruct (W6 l (kron_over_some _ _ Ek)) as (ms & F & Kr).
       eapply sound_weaken; [apply (sound_cached h1 i o' "root_decomposition" (Some "root_decomposition") false _ args kw G1)
                            | unfold key_of; simpl name_of_opt; intros v Hv; apply (entry1_elim _ _ _ _ (aspects_root args kw)); exact Hv].
       unfold key_of. simpl name_of_opt.
@@ -1020,7 +1037,7 @@ Proof. destruct fuel; reflexivity. Qed.
 Lemma sound_root_inv_base st fuel h1 i o' a k : get i h1 = Some o' -> obj_wf h1 o' ->
   sound h1 (root_inv_base K st fuel i o' a k) (valid ARootInv (o_mat K o')).
 Proof.
-  intros G1 (_ & _ & _ & W1x1 & _). unfold root_inv_base.
+  intros G1 W. assert (W' := W). destruct W' as (_ & _ & _ & W1x1 & _). unfold root_inv_base.
   eapply sound_weaken; [apply (sound_cached h1 i o' "root_inv_decomposition" (Some "root_inv_decomposition") false _ a k G1)
                        | unfold key_of; simpl name_of_opt; intros v Hv; apply (entry1_elim _ _ _ _ (aspects_rootinv a k)); exact Hv].
   unfold key_of. simpl name_of_opt.
@@ -1039,11 +1056,20 @@ Proof.
   { (* lanczos: the root of the same run is written into the cache as a side effect *)
     sstep; [sstep|].
     sstep; [apply sound_fresh_run|]. intros r _.
-    destruct (ko_rootinv_lanczos KO (o_mat K o') r) as (Hinv & Hroot).
-    destruct (k_rootinv_lanczos K (o_mat K o') r) as [inv_root root]. simpl in Hinv, Hroot.
-    sstep; [apply (sound_add_to_cache h1 i o' "root_decomposition" root [] [] G1);
-            apply (entry1_intro _ _ _ _ (aspects_root [] [])); exact Hroot|].
-    intros _ _. sstep. apply (ko_wrap_root KO). exact Hinv. }
+    destruct (deleg_kid (o_pf K o')) as [c|] eqn:Ed.
+    - (* delegating class: the by-product lands in the cache of the base operator, valid for ITS matrix *)
+      destruct (deleg_wf h1 o' c W Ed) as (oc & Gc & Kr).
+      apply (sound_with_obj h1 c oc _ _ Gc). intros oc' Stc. rewrite <- (mat_eq _ _ Stc).
+      destruct (ko_rootinv_lanczos KO (o_mat K oc) r) as (Hinv & Hroot).
+      destruct (k_rootinv_lanczos K (o_mat K oc) r) as [inv_root root]. simpl in Hinv, Hroot.
+      sstep; [apply (sound_add_to_cache h1 c oc "root_decomposition" root [] [] Gc);
+              apply (entry1_intro _ _ _ _ (aspects_root [] [])); exact Hroot|].
+      intros _ _. sstep. apply (ko_wrap_root KO). eapply (ko_deleg_lift KO); eauto.
+    - destruct (ko_rootinv_lanczos KO (o_mat K o') r) as (Hinv & Hroot).
+      destruct (k_rootinv_lanczos K (o_mat K o') r) as [inv_root root]. simpl in Hinv, Hroot.
+      sstep; [apply (sound_add_to_cache h1 i o' "root_decomposition" root [] [] G1);
+              apply (entry1_intro _ _ _ _ (aspects_root [] [])); exact Hroot|].
+      intros _ _. sstep. apply (ko_wrap_root KO). exact Hinv. }
   sstep; [sstep; [apply (sound_symeig _ h1 i o' true G1)|]; intros e He; sstep; apply (ko_rootinv_eig KO); exact He|].
   sstep; [sstep; [apply (sound_diagonalization st _ h1 i o' [] [] G1)|]; intros e He; sstep; apply (ko_rootinv_eig KO); exact He|].
   sstep; [sstep; [apply (sound_svd _ h1 i o' G1)|]; intros u Hu; sstep; apply (ko_rootinv_svd KO); exact Hu|].
@@ -1061,9 +1087,9 @@ Proof.
   intros Skc G. unfold root_inv_body.
   apply (sound_with_obj_wf h0 i o _ _ G); intros h1 o' E1 I1 G1 St W.
   rewrite (mat_eq _ _ St). cbv zeta.
-  destruct (pf_eig (o_pf K o')) as [|c|l] eqn:Ee; try apply (sound_root_inv_base st fuel h1 i o' _ _ G1 W).
+  destruct (kron_over (o_pf K o')) as [l|] eqn:Ek; [|apply (sound_root_inv_base st fuel h1 i o' _ _ G1 W)].
   (* Kron: its own cached method; small -> super().root_inv_decomposition() (no arguments); else the factors *)
-  assert (W' := W). destruct W' as (_ & _ & _ & _ & _ & W6). destruct (W6 l ltac:(first [exact Ee | reflexivity])) as (ms & F & Kr).
+  assert (W' := W). destruct W' as (_ & _ & _ & _ & _ & W6). destruct (W6 l (kron_over_some _ _ Ek)) as (ms & F & Kr).
   eapply sound_weaken; [apply (sound_cached h1 i o' "root_inv_decomposition" (Some "root_inv_decomposition") false _ args kw G1)
                        | unfold key_of; simpl name_of_opt; intros v Hv; apply (entry1_elim _ _ _ _ (aspects_rootinv args kw)); exact Hv].
   unfold key_of. simpl name_of_opt.
@@ -1206,27 +1232,52 @@ Proof.
       apply (ko_iqld_cg KO). apply (ko_no_precond KO).
 Qed.
 
-Lemma sound_iqld st fuel h0 i o rhs ld : get i h0 = Some o ->
+Lemma inv_quad_logdet_eq st fuel i rhs ld :
+  inv_quad_logdet K st fuel i rhs ld =
+  inv_quad_logdet_body K (match fuel with
+                          | O => fun _ _ _ => raise ValueError
+                          | S f => inv_quad_logdet K st f
+                          end) st fuel i rhs ld.
+Proof. destruct fuel; reflexivity. Qed.
+
+(* the body of inv_quad_logdet, given that the call on the base operator of a delegating class is sound *)
+Lemma sound_iqld_body st fuel (kc : nat -> option nat -> bool -> H Val) h0 i o rhs ld :
+  (forall h1 c oc r l, get c h1 = Some oc -> sound h1 (kc c r l) (valid (AIqld r l) (o_mat K oc))) ->
+  get i h0 = Some o ->
+  sound h0 (inv_quad_logdet_body K kc st fuel i rhs ld) (valid (AIqld rhs ld) (o_mat K o)).
+Proof.
+  intros Skc G. unfold inv_quad_logdet_body.
+  apply (sound_with_obj_wf h0 i o _ _ G); intros h1 o' E1 I1 G1 St W.
+  rewrite (mat_eq _ _ St). cbv zeta.
+  destruct (deleg_kid (o_pf K o')) as [c|] eqn:Ed.
+  - (* BlockDiag / BatchRepeat: the base operator's inv_quad_logdet (its caches), reshaped *)
+    destruct (deleg_wf h1 o' c W Ed) as (oc & Gc & Kr).
+    apply (sound_with_obj h1 c oc _ _ Gc). intros oc' Stc.
+    sstep; [apply (Skc h1 c oc rhs ld Gc)|]. intros r Hr.
+    sstep; [sstep|]. sstep; [sstep|]. sstep. eapply (ko_iqld_deleg KO); eauto.
+  - destruct (kron_over (o_pf K o')) as [l|] eqn:Ek; [|apply (sound_iqld_base st fuel h1 i o' _ _ G1)].
+    (* Kron: inv_quad from super().inv_quad_logdet(rhs, logdet=False), logdet from the cached diagonalization *)
+    eapply sound_bind with (Q1 := fun iq => match rhs, iq with
+                                            | Some _, Some x => valid (AIqld rhs false) (o_mat K o') x
+                                            | None, None => True
+                                            | _, _ => False end).
+    { destruct rhs as [r|]; [|sstep; exact Logic.I].
+      sstep; [apply (sound_iqld_base st fuel h1 i o' _ _ G1)|]. intros x Hx. sstep. exact Hx. }
+    intros iq Hiq.
+    eapply sound_bind with (Q1 := fun e => match ld, e with
+                                           | true, Some e' => valid (AEig true) (o_mat K o') e'
+                                           | false, None => True
+                                           | _, _ => False end).
+    { destruct ld; [|sstep; exact Logic.I]. sstep; [apply (sound_diagonalization st _ h1 i o' [] [] G1)|]. intros e He. sstep. exact He. }
+    intros e He. sstep. apply (ko_iqld_kron KO); auto.
+Qed.
+
+Lemma sound_iqld st fuel : forall h0 i o rhs ld, get i h0 = Some o ->
   sound h0 (inv_quad_logdet K st fuel i rhs ld) (valid (AIqld rhs ld) (o_mat K o)).
 Proof.
-  intros G. unfold inv_quad_logdet.
-  apply (sound_with_obj_wf h0 i o _ _ G); intros h1 o' E1 I1 G1 St _.
-  rewrite (mat_eq _ _ St). cbv zeta.
-  destruct (pf_eig (o_pf K o')) as [|c|l] eqn:Ee; try apply (sound_iqld_base st fuel h1 i o' _ _ G1).
-  (* Kron: inv_quad from super().inv_quad_logdet(rhs, logdet=False), logdet from the cached diagonalization *)
-  eapply sound_bind with (Q1 := fun iq => match rhs, iq with
-                                          | Some _, Some x => valid (AIqld rhs false) (o_mat K o') x
-                                          | None, None => True
-                                          | _, _ => False end).
-  { destruct rhs as [r|]; [|sstep; exact Logic.I].
-    sstep; [apply (sound_iqld_base st fuel h1 i o' _ _ G1)|]. intros x Hx. sstep. exact Hx. }
-  intros iq Hiq.
-  eapply sound_bind with (Q1 := fun e => match ld, e with
-                                         | true, Some e' => valid (AEig true) (o_mat K o') e'
-                                         | false, None => True
-                                         | _, _ => False end).
-  { destruct ld; [|sstep; exact Logic.I]. sstep; [apply (sound_diagonalization st _ h1 i o' [] [] G1)|]. intros e He. sstep. exact He. }
-  intros e He. sstep. apply (ko_iqld_kron KO); auto.
+  induction fuel as [|f IH]; intros h0 i o rhs ld G; rewrite inv_quad_logdet_eq;
+    apply sound_iqld_body; auto.
+  intros h1 c oc r l _. sstep.
 Qed.
 
 Lemma sound_logdet st fuel h0 i o : get i h0 = Some o ->
@@ -1248,18 +1299,46 @@ Proof.
   sstep; [sstep|]. sstep. apply (ko_diagonal KO).
 Qed.
 
-Lemma sound_sample st fuel h0 i o z : get i h0 = Some o ->
+Lemma sample_eq st fuel i z :
+  sample K st fuel i z =
+  sample_body K (match fuel with
+                 | O => fun _ _ => raise ValueError
+                 | S f => sample K st f
+                 end) st fuel i z.
+Proof. destruct fuel; reflexivity. Qed.
+
+Lemma sound_sample_body st fuel (kc : nat -> nat -> H Val) h0 i o z :
+  (forall h1 c oc n, get c h1 = Some oc -> sound h1 (kc c n) (valid (ASample n) (o_mat K oc))) ->
+  get i h0 = Some o ->
+  sound h0 (sample_body K kc st fuel i z) (valid (ASample z) (o_mat K o)).
+Proof.
+  intros Skc G. unfold sample_body.
+  apply (sound_with_obj_wf h0 i o _ _ G); intros h1 o' E1 I1 G1 St W.
+  assert (W' := W). destruct W' as (_ & _ & _ & W1x1 & _).
+  rewrite (mat_eq _ _ St).
+  assert (Base : sound h1 (if st_ciq st then ret (k_sample_ciq K (o_mat K o') z)
+                           else if (o_n K o' =? 1) && o_square K o'
+                                then d <- to_dense K fuel i ;; ret (k_sample_1x1 K d z)
+                                else r <- root_decomposition K st fuel i [] [] ;; ret (k_sample_root K (v_root K r) z))
+                          (valid (ASample z) (o_mat K o'))).
+  { sstep; [sstep; apply (ko_sample_ciq KO)|].
+    destruct ((o_n K o' =? 1) && o_square K o') eqn:E1x1.
+    - apply andb_prop in E1x1. destruct E1x1 as (En & Esq). apply Nat.eqb_eq in En.
+      sstep; [apply (sound_to_dense _ h1 i o' G1)|]. intros d Hd. sstep. apply (ko_sample_1x1 KO); auto.
+    - sstep; [apply (sound_root_decomposition st _ h1 i o' [] [] G1)|]. intros r Hr. sstep.
+      apply (ko_sample_root KO). apply (ko_root_factor KO). exact Hr. }
+  destruct (deleg_kid (o_pf K o')) as [c|] eqn:Ed; [|exact Base].
+  destruct (pf_deleg (o_pf K o')) as [[|]|] eqn:Eb; try exact Base.
+  (* BlockDiag: the base operator's samples, reshaped *)
+  destruct (deleg_wf h1 o' c W Ed) as (oc & Gc & Kr).
+  sstep; [apply (Skc h1 c oc z Gc)|]. intros v Hv. sstep. eapply (ko_sample_deleg KO); eauto.
+Qed.
+
+Lemma sound_sample st fuel : forall h0 i o z, get i h0 = Some o ->
   sound h0 (sample K st fuel i z) (valid (ASample z) (o_mat K o)).
 Proof.
-  intros G. unfold sample.
-  apply (sound_with_obj_wf h0 i o _ _ G); intros h1 o' E1 I1 G1 St (_ & _ & _ & W1x1 & _).
-  rewrite (mat_eq _ _ St).
-  sstep; [sstep; apply (ko_sample_ciq KO)|].
-  destruct ((o_n K o' =? 1) && o_square K o') eqn:E1x1.
-  - apply andb_prop in E1x1. destruct E1x1 as (En & Esq). apply Nat.eqb_eq in En.
-    sstep; [apply (sound_to_dense _ h1 i o' G1)|]. intros d Hd. sstep. apply (ko_sample_1x1 KO); auto.
-  - sstep; [apply (sound_root_decomposition st _ h1 i o' [] [] G1)|]. intros r Hr. sstep.
-    apply (ko_sample_root KO). apply (ko_root_factor KO). exact Hr.
+  induction fuel as [|f IH]; intros h0 i o z G; rewrite sample_eq; apply sound_sample_body; auto.
+  intros h1 c oc n _. sstep.
 Qed.
 
 (* ------------------------------------------------------------------ one query *)
